@@ -321,7 +321,9 @@ func getTagType(v reflect.Value) (byte, reflect.Value) {
 			break
 		}
 		if v.IsNil() {
-			v.Set(reflect.New(v.Type().Elem()))
+			// encode a nil pointer as the zero value it could point to,
+			// without touching the caller's value
+			v = reflect.New(v.Type().Elem())
 		}
 		if v.Type().NumMethod() > 0 && v.CanInterface() {
 			i := v.Interface()
